@@ -22,6 +22,7 @@ from vf import dailybuild as B
 from vf.oracle import daily_formula as F
 
 ID = "C11"
+TECHNIQUE = 'runtime monitoring: icontract post-condition on the real DailyModel._predict_submodel judging every evaluation (continuity, flat between balance points, monotone, exact line / asymptote, load additivity); kernel-regime reach via a wrapper on full_model; bounds-checked and interpreted numba builds (thorough)'
 LEVEL = "exploration"
 CASE_TIMEOUT = 1500
 RULE = ("coefficient vectors drawn inside the optimiser's box per shape (balance points in [T_min_seg,T_max_seg] including the "
